@@ -1,2 +1,25 @@
+//! JSON round-trip scenarios (C16).
+use rateslib::dual::Dual;
 use serde_json::{json, Value};
-pub fn run(sc: &Value) -> Value { json!({"error": format!("unknown scenario {}", sc["kind"])}) }
+
+pub fn run(sc: &Value) -> Value {
+    match sc["kind"].as_str().unwrap_or("") {
+        "json_f64" => {
+            // the double travels as its bit pattern so that the scenario file itself does not depend on float parsing
+            let bits: u64 = sc["bits"].as_str().unwrap().parse().unwrap();
+            let x = f64::from_bits(bits);
+            let d = Dual::try_new(x, vec!["v0".to_string()], vec![x]).unwrap();
+            let text = serde_json::to_string(&d).unwrap();
+            let back: Dual = serde_json::from_str(&text).unwrap();
+            let tagged = format!("{{\"Dual\":{}}}", text);
+            let re = rateslib::verif_hooks::from_json_tagged(&tagged);
+            let re_ok = match &re { Ok(t) => t == &tagged, Err(_) => false };
+            json!({"text": text, "real_bits_after": back.real().to_bits().to_string(), "same": back.real().to_bits() == bits && back == d, "tagged_same": re_ok})
+        }
+        "json_tagged" => {
+            let r = std::panic::catch_unwind(|| rateslib::verif_hooks::from_json_tagged(sc["text"].as_str().unwrap()));
+            match r { Ok(Ok(t)) => json!({"ok": t}), Ok(Err(e)) => json!({"err": e}), Err(_) => json!({"panic": true}) }
+        }
+        _ => json!({"error": format!("unknown scenario {}", sc["kind"])}),
+    }
+}
